@@ -293,9 +293,10 @@ func init() {
 					op.Merge = false
 					gcDone = true
 					c.GCAt = len(c.Ops)
-				case p < 96 && mode == "normal":
+				case p < 96 && (mode == "normal" || (mode == "gc" && !gcDone)):
+					// in gc mode: a clean restart before the pass, so that a tree image (*.idx.hash) is on disk when GC starts
 					op.Op, op.K = "R", ""
-					op.RmTrees = r.Bool()
+					op.RmTrees = mode == "normal" && r.Bool()
 				default:
 					op.Op = "G"
 				}
